@@ -659,7 +659,7 @@ func rejectionProbes(c *core.Ctx) {
 func cliLeg(c *core.Ctx) {
 	r := cli.NewRunner(c.BinDir, c.Scratch)
 	rng := c.Rng("cli")
-	n := c.Pick(24, 160)
+	n := c.Pick(24, 400)
 	type job struct {
 		tc *tcase
 	}
@@ -848,7 +848,7 @@ func firstLine(b []byte) string {
 // ---------------------------------------------------------------------------------------------
 
 func Run(c *core.Ctx) core.FinishOpts {
-	perCfg := c.Pick(50, 1000)
+	perCfg := c.Pick(50, 4000)
 	var jobs []*tcase
 	for ci, cfg := range configs {
 		rng := c.Rng(fmt.Sprintf("cfg-%d", ci))
@@ -875,7 +875,7 @@ func Run(c *core.Ctx) core.FinishOpts {
 		Rule: "16 configurations (max_diff {0,1ns,5s,1h} x resolution {1ns, omitted, 7s, 1min}) x seeded time sequences (ascending, locally shuffled, bursts of duplicates, random walk; " +
 			"ns or s granularity; post-epoch, pre-epoch, straddling the epoch; instants on and 1ns around multiples of the resolution; optional retractions, source event times and source watermarks), " +
 			"run as real SQL over a memdb table with and without the optimizer, plus a CLI leg over JSON files; non-trivial = at least 3 records and 2 expected watermarks; distinct by configuration and time sequence",
-		Floor: c.Pick(400, 8000),
+		Floor: c.Pick(400, 30000),
 		Assumptions: []string{
 			"oracle: own step-by-step reference in int64 Unix-nanosecond arithmetic with floor division",
 			"outputs are attributed to input steps by a counter the scripted source advances after each pushed event (the TVF is synchronous)",
